@@ -13,6 +13,8 @@ mod c02;
 mod c03;
 mod c04;
 mod c05;
+mod c06;
+mod c07;
 mod c09;
 mod c15;
 mod gen;
@@ -202,6 +204,8 @@ pub fn eval(out: &mut Out, req: &str) -> String {
     let args: Vec<&str> = it.collect();
     let r = if op.starts_with("leb.") {
         c09::eval(out, op, &args)
+    } else if op.starts_with("de.") {
+        c07::eval(out, op, &args)
     } else if op.starts_with("sound.") {
         c04::eval(out, op, &args)
     } else if op == "wire.roundtrip" || op == "wire.annotate" {
@@ -269,6 +273,8 @@ fn main() {
         "C03" => c03::run(&mut ctx),
         "C04" => c04::run(&mut ctx),
         "C05" => c05::run(&mut ctx),
+        "C06" => c06::run(&mut ctx),
+        "C07" => c07::run(&mut ctx),
         "C09" => c09::run(&mut ctx),
         "C15" => c15::run(&mut ctx),
         "C16" => c16::run(&mut ctx),
